@@ -121,6 +121,20 @@ theorem C08_typed_literals :
     (Val.str "1.1".toList).lit ≠ (Val.str "1.10".toList).lit ∧ (Val.num "2.5".toList).lit ≠ (Val.str "2.5".toList).lit := by
   decide
 
+/-- an aware datetime is rendered with its own wall-clock fields and its own offset — not shifted to UTC -/
+example : dtText 2020 1 2 3 4 5 0 (some 300) = "2020-01-02 03:04:05+05:00".toList ∧
+    dtText 2020 1 2 3 4 5 678 (some (-480)) = "2020-01-02 03:04:05.000678-08:00".toList ∧
+    dtText 987 12 31 23 59 59 0 none = "987-12-31 23:59:59".toList := by decide
+
+/-- the rendered text of an aware datetime ends with its own offset, whatever the other fields are (so two datetimes
+    denoting the same instant in different zones have different texts: the text is data too) -/
+theorem C08_datetime_keeps_offset (y mo d h mi s us : Nat) (o : Int) :
+    ∃ front, dtText y mo d h mi s us (some o) =
+      front ++ ((if o ≥ 0 then '+' else '-') :: pad 2 (o.natAbs / 60) ++ ':' :: pad 2 (o.natAbs % 60)) := by
+  refine ⟨(toString y).toList ++ '-' :: pad 2 mo ++ '-' :: pad 2 d ++ ' ' :: pad 2 h ++ ':' :: pad 2 mi ++ ':' :: pad 2 s
+    ++ (if us = 0 then [] else '.' :: pad 6 us), ?_⟩
+  simp [dtText]
+
 /-- **qmark / numeric**: the command text is handed on unchanged and the values stay values. -/
 theorem C08_qmark_text_unchanged (cmd : List Char) (a : Args) :
     (rewrite .qmark cmd a).1 = .ok cmd := by simp [rewrite, Style.clientSide]
